@@ -56,6 +56,7 @@ struct LexerCheckpoint<'src> {
     cur_token_line: LineIdx,
     mode_stack_len: usize,
     buffer_checkpoint: WorkBufferCheckpoint,
+    errors_len: usize,
 }
 
 #[derive(Debug)]
@@ -195,6 +196,7 @@ impl Lexer<'_> {
             cur_token_line: self.cur_token_line,
             mode_stack_len: self.mode_stack.len(),
             buffer_checkpoint: self.buffer.checkpoint(),
+            errors_len: self.errors.len(),
         });
     }
 
@@ -212,6 +214,8 @@ impl Lexer<'_> {
             self.cur_token_line = checkpoint.cur_token_line;
             self.mode_stack.truncate(checkpoint.mode_stack_len);
             self.buffer.rollback(checkpoint.buffer_checkpoint);
+            // Errors reported while lexing speculatively refer to tokens that no longer exist
+            self.errors.truncate(checkpoint.errors_len);
         } else {
             #[cfg(debug_assertions)]
             {
